@@ -30,7 +30,7 @@ def register(reg, repo):
     reg.add(C("futures.FutureBase.is_computed", modifies=[],
               post=["result == computed(self)"], xpost=None, returns_type="bool"))
 
-    reg.add(C("futures.FutureBase.value", modifies="*", requires=[NOWIN], pure_when="computed(self)",
+    reg.add(C("futures.FutureBase.value", modifies="*", requires=[NOWIN, "computed(self) or " + NOTRUN], pure_when="computed(self)",
               post=["computed(self)", "self._error is None", "result is self._value",
                     "implies(old(computed(self)), result is old(self._value))",
                     "implies(old(computed(self)), no_callout())"],
@@ -39,13 +39,13 @@ def register(reg, repo):
                      "implies(old(computed(self)), no_callout())"],
               labels={("post", 4): "no-recompute", ("xpost", 2): "no-recompute"}))
 
-    reg.add(C("futures.FutureBase.__call__", modifies="*", requires=[NOWIN], pure_when="computed(self)",
+    reg.add(C("futures.FutureBase.__call__", modifies="*", requires=[NOWIN, "computed(self) or " + NOTRUN], pure_when="computed(self)",
               post=["computed(self)", "self._error is None", "result is self._value",
                     "implies(old(computed(self)), result is old(self._value))"],
               xpost=["implies(old(computed(self)), exc is old(self._error))",
                      "implies(old(computed(self)), old(self._error) is not None)"]))
 
-    reg.add(C("futures.FutureBase.error", modifies="*", requires=[NOWIN], pure_when="computed(self)",
+    reg.add(C("futures.FutureBase.error", modifies="*", requires=[NOWIN, "computed(self) or " + NOTRUN], pure_when="computed(self)",
               post=["computed(self)", "result is self._error",
                     "implies(old(computed(self)), result is old(self._error))",
                     "implies(isinstance(self, BatchBase) and not old(computed(self)), self.$n_notified >= 1 and self.$n_flush_body == old(self.$n_flush_body) + 1)",
@@ -89,11 +89,11 @@ def register(reg, repo):
               note="the announcement: requires the outcome to be visible already"))
 
     reg.add(C("futures.FutureBase._compute!virtual", params=["self"], kind="method", modifies="*", trusted=True,
-              requires=["not computed(self)", NOWIN],
+              requires=["not computed(self)", NOWIN, NOTRUN],
               post=["computed(self)",
                     "implies(isinstance(self, BatchBase), self.$n_notified >= 1 and self.$n_flush_body == old(self.$n_flush_body) + 1)"],
-              xpost=["not isinstance(self, BatchBase)"],
-              note="dynamic dispatch of self._compute(); overrides (Future, AsyncTask, BatchBase, BatchItemBase) refine this"))
+              xpost=["not isinstance(self, BatchBase)", "isinstance(exc, Exception)"],
+              note="(BaseException from a provider/flush is treated as fatal and not modelled) dynamic dispatch of self._compute(); overrides (Future, AsyncTask, BatchBase, BatchItemBase) refine this"))
     reg.add(C("futures.FutureBase._compute", modifies=[],
               post=["False"], xpost=["isinstance(exc, NotImplementedError)"],
               note="abstract body"))
